@@ -72,9 +72,16 @@ package wal
 //@ func wal.ParseVersion -> r
 //@ trusted string manipulation of a file name (strings.Split/TrimSuffix/fmt.Sprintf); no heap effect; result unconstrained here (its order is C02's business, D9)
 //@ assigns nothing
+// CompareVersion orders wal versions "<yyyymmddhhmmss>-<nanoseconds>" by creation time: first by the
+// stamp, then by the nanosecond field as a number (C03/C02: memtable.recover replays exactly the logs
+// that are older than the new one).
+// thin: the index obligations of the body are not claimed - on a string that is not of that form
+// (fewer than two '-'-separated parts) the function panics; its callers pass ParseVersion results
 //@ func wal.CompareVersion -> r
-//@ trusted string comparison of two version strings; no heap effect; result unconstrained here (C02, D9)
+//@ props C03 C14
+//@ thin ^post
 //@ assigns nothing
+//@ ensures forall(Str(a1), Int(n1), Str(a2), Int(n2), (v1 == wver(a1, n1) && v2 == wver(a2, n2) && noDash(a1) && noDash(a2) && 0 <= n1 && n1 <= 999999999 && 0 <= n2 && n2 <= 999999999) ==> (((r < 0) == (a1 < a2 || (a1 == a2 && n1 < n2))) && ((r > 0) == (a1 > a2 || (a1 == a2 && n1 > n2)))), trig(wver(a1, n1), wver(a2, n2)))
 //@ func (*wal.WAL).Version -> r
 //@ props C12
 //@ trusted returns w.version under the lock; no heap effect
